@@ -628,6 +628,12 @@ def runNumeric (lines : List String) : IO Unit := do
         for (nm, vv) in [("subtractDisconnected()", v1), ("subtractDisconnected(a,b)", v2), ("subtractDisconnected(EA,EB)", v3)] do
           if !closeC (v0 - vv) d (1.0e-9 * (1.0 + d.abs)) then
             a ← fail a "C14" s!"{nm}: value differs from the plain one by ({(v0 - vv).re},{(v0 - vv).im}) at n={n}, expected ({d.re},{d.im})"
+    | "o" :: "idem" :: what :: rest =>
+      -- stress mode: repeated prepare()/compute(), copies and re-evaluation must not change any value
+      a := a.bump "idempotence_checks"
+      if rest.getLastD "1" != "1" then
+        let prop := if what == "gf" then "C01" else if what == "chi" then "C02" else "C14"
+        a ← fail a prop s!"{what} {" ".intercalate rest.dropLast}: repeated prepare/compute, a copy or a second evaluation changes the value"
     | ["o", "chipurged", i, j, k, l, n1, n2, n3, re, im] =>
       -- after a table computation that discarded the terms the object may refuse on-demand evaluation, but if it answers,
       -- the answer must be the value of the table / of on-demand evaluation before
